@@ -205,6 +205,8 @@ func (L *Loader) verifyFuncAuto(fn *ssa.Function, spec *FuncSpec, disabled map[s
 
 var debugPanics = false
 
+var reUnknownID = regexp.MustCompile(`unknown identifier "([A-Za-z_][A-Za-z0-9_]*)"`)
+
 var reGlobalKey = regexp.MustCompile(`H0_G:([^#|]+)#`)
 
 // constrainInput: what holds for every value that enters the function from outside.
@@ -257,6 +259,11 @@ func (e *Exec) atReturn(fr *Frame, ret *ssa.Return, rv Val) {
 		}
 		t, err := env.evalBool(en.E)
 		if err != nil {
+			// a clause that names a local variable which is not yet defined at this return says
+			// nothing about this return (it is still checked at every return where it is defined)
+			if m := reUnknownID.FindStringSubmatch(err.Error()); m != nil && e.L.isLocalName(fr.fn, m[1]) {
+				continue
+			}
 			e.errs = append(e.errs, fmt.Sprintf("%s: %v", en.Line, err))
 			continue
 		}
@@ -297,7 +304,13 @@ func (e *Exec) frameCheck(fr *Frame, env *SpecEnv, pos string) {
 	}
 	sort.Strings(keys)
 	for _, k := range keys {
-		srt := e.keySort[k]
+		if strings.HasPrefix(k, "X:") || strings.HasPrefix(k, "R:") {
+			continue // ghost state is framed by the contracts that mention it
+		}
+		srt, known := e.keySort[k]
+		if !known {
+			continue // havocked but never read or written with a known shape: not observable here
+		}
 		cur := e.heapGet(fr.st, k, srt)
 		old := e.heapGet(e.entry, k, srt)
 		if cur == old {
